@@ -183,10 +183,10 @@ func cmdCheck(args []string) int {
 		}
 	}
 	loadS := time.Since(t0).Seconds()
-	timeout := 30 * time.Second
+	timeout := 60 * time.Second
 	confirm := false
 	if *tier == "thorough" {
-		timeout = 60 * time.Second
+		timeout = 180 * time.Second
 		confirm = true
 	}
 	dir := *keep
